@@ -2,6 +2,7 @@
 between plain-data descriptions and library objects."""
 from __future__ import annotations
 
+import dataclasses
 import ipaddress
 import logging
 import os
@@ -150,6 +151,21 @@ def timings(**kw):
     )
     base.update(kw)
     return sd.Timings(**base)
+
+
+def late(tm, on=True):
+    """-> (timings object to construct with, apply()).  With `on`, the objects are constructed with a default Timings()
+    whose fields are assigned afterwards by apply() - the way an application configures a protocol object it got from
+    create_endpoints(), which takes no timings argument - instead of receiving the finished object."""
+    if not on:
+        return tm, (lambda: None)
+    d = sd.Timings()
+
+    def apply():
+        for f in dataclasses.fields(tm):
+            setattr(d, f.name, getattr(tm, f.name))
+
+    return d, apply
 
 
 # ---------------------------------------------------------------- addresses
